@@ -52,20 +52,21 @@ func (c *Case) HayBytes() []byte {
 
 // Plan is the deterministic description of what one (property, tier) run explores.
 type Plan struct {
-	Units       int                                         // number of work units (e.g. patterns)
-	Chunk       int                                         // units per job (default 16)
-	Run         func(w *W, unit int)                        // executes one unit in a worker
-	Describe    func(unit int) string                       // for crash attribution / samples
-	Replay      func(w *W, c *Case)                         // re-runs exactly the case; must call w.Fail again if it still fails
-	Rule        string                                      // evidence: how cases are enumerated, what is non-trivial
-	Level       string                                      // evidence level
-	Assume      []string                                    // evidence assumptions
-	Bounds      map[string]any                              // evidence: the bounds of this tier
-	Budget      time.Duration                               // internal deadline for dispatching
-	UnitTimeout time.Duration                               // watchdog per unit (default 120 s)
-	Passes      []Pass                                      // the whole unit space is explored once per pass (default: one unnamed pass)
-	Extra       func(total map[string]int64) map[string]any // extra evidence keys computed from merged counters
-	Prepare     func(opt *Options) error                    // coordinator-side preparation (e.g. building an instrumented worker)
+	Units           int                                         // number of work units (e.g. patterns)
+	Chunk           int                                         // units per job (default 16)
+	Run             func(w *W, unit int)                        // executes one unit in a worker
+	Describe        func(unit int) string                       // for crash attribution / samples
+	Replay          func(w *W, c *Case)                         // re-runs exactly the case; must call w.Fail again if it still fails
+	Rule            string                                      // evidence: how cases are enumerated, what is non-trivial
+	Level           string                                      // evidence level
+	Assume          []string                                    // evidence assumptions
+	Bounds          map[string]any                              // evidence: the bounds of this tier
+	Budget          time.Duration                               // internal deadline for dispatching
+	UnitTimeout     time.Duration                               // watchdog per unit (default 120 s)
+	Passes          []Pass                                      // the whole unit space is explored once per pass (default: one unnamed pass)
+	Extra           func(total map[string]int64) map[string]any // extra evidence keys computed from merged counters
+	Prepare         func(opt *Options) error                    // coordinator-side preparation (e.g. building an instrumented worker)
+	HangIsViolation bool                                        // a unit exceeding the watchdog in 5/5 runs is a violation (totality, C07) rather than inconclusive
 }
 
 // Pass is one process-level configuration (e.g. a CPU-feature mask) under which all units are explored.
@@ -244,7 +245,7 @@ func Coordinate(opt Options, plan *Plan, store *kf.Store) int {
 		plan.Chunk = 16
 	}
 	if plan.UnitTimeout == 0 {
-		plan.UnitTimeout = 120 * time.Second
+		plan.UnitTimeout = 600 * time.Second
 	}
 	type job struct{ lo, hi int }
 	var mu sync.Mutex
@@ -383,6 +384,10 @@ func Coordinate(opt Options, plan *Plan, store *kf.Store) int {
 					repro++
 					lastErr = err.Error() + " " + wk.stderrTail()
 					wk.kill()
+					if strings.Contains(lastErr, "watchdog") && repro >= 2 {
+						repro = 5 // two expiries of the generous watchdog are enough; do not spend 5 x 10 minutes
+						break
+					}
 					continue
 				}
 				wk.close()
@@ -394,7 +399,13 @@ func Coordinate(opt Options, plan *Plan, store *kf.Store) int {
 			if good != nil {
 				merge(good)
 			}
-			if repro == 5 {
+			if repro == 5 && strings.Contains(lastErr, "watchdog") && !plan.HangIsViolation {
+				// a unit that only ever exceeds the (generous) wall-clock watchdog is inconclusive for every property
+				// except totality (C07): no wall-clock judgement is turned into a violation elsewhere
+				fmt.Fprintf(os.Stderr, "harness: unit %d (%s) exceeded the %s watchdog in 5/5 runs; counted as not explored\n", u, plan.Describe(u), plan.UnitTimeout)
+				total["units_not_explored_watchdog"]++
+				deadlineHit = true
+			} else if repro == 5 {
 				c := &Case{Property: opt.Prop, Op: "worker-death", Mode: pass.Name, Pattern: plan.Describe(u), Hay: `""`, Want: "returns normally", Got: "process died or hung (5/5 runs)", Cluster: "crash", Extra: map[string]string{"detail": firstLine(lastErr)}}
 				h := c.Hash()
 				c.Key = fmt.Sprintf("%016x", h)
